@@ -429,10 +429,48 @@ fn main() {
         }
         repo.remove();
     }
+    // layer H: crowded repositories - tens to hundreds of version tags on each of several commits (written in an order in
+    // which the greatest is neither the first nor the last name git lists), hundreds of higher-versioned tags on a side
+    // branch that HEAD cannot reach, non-version names in between; HEAD on main's tip, between and below the tagged commits,
+    // and on the side branch. Thresholds in the number of candidates per commit or of refs in the repository show here.
+    let mut s_h = Stats::default();
+    {
+        let mut ops: Vec<String> = vec!["commit".to_string(); 10];
+        ops.push("branch side".into()); ops.extend(vec!["commit".to_string(); 6]);
+        ops.push("checkout main".into()); ops.extend(vec!["commit".to_string(); 20]);
+        let shape = gitx::shape_from_ops(&ops).unwrap_or_else(|e| machinery_error(&e));
+        let n = shape.parents.len();
+        let mut repo = Repo::create(&root, "crowd", &shape, &gitx::dates(n, DateMode::Increasing));
+        let main_tagged = [0usize, 5, 10, 20, 30];
+        let side_commits: Vec<usize> = (11..=16).collect();
+        let counts: &[usize] = if quick { &[12, 33, 65, 130] } else { &[1, 2, 9, 10, 11, 12, 31, 32, 33, 63, 64, 65, 99, 100, 101, 127, 128, 129, 255, 256, 257, 600] };
+        for &k in counts {
+            let mut tags: Vec<Tag> = vec![];
+            for &c in &main_tagged {
+                for j in 0..k {
+                    // third number j: 9 < 10 < 100 numerically but "v1.c.10" < "v1.c.9" as text; a pre-release and a build spelling mixed in
+                    let name = match j % 11 { 3 => format!("v1.{c}.{j}-rc.{j}"), 7 => format!("1.{c}.{j}"), _ => format!("v1.{c}.{j}") };
+                    tags.push(Tag { name, target: c, annotated: j % 7 == 0 });
+                }
+                tags.push(Tag { name: format!("build-{c}"), target: c, annotated: false });
+                tags.push(Tag { name: format!("v1.{c}"), target: c, annotated: false });
+            }
+            for &c in &side_commits { for j in 0..k { tags.push(Tag { name: format!("v9.{c}.{j}"), target: c, annotated: j % 5 == 0 }); } }
+            repo.set_tags(&tags);
+            for head in [Head::Branch("main".into()), Head::Detached(30), Head::Detached(25), Head::Detached(10), Head::Detached(3), Head::Branch("side".into()), Head::Detached(13)] {
+                repo.set_head(&head);
+                s_h.inc("states"); s_h.inc("crowded_states");
+                let sr = StateRef { shape: &shape, tags: &tags, head: &head, wt: WorkTree::Clean, repo: &repo, label: format!("crowded repository: {k} version tags on each of commits {main_tagged:?} and on side commits 11..16 ({} tags), head {head:?}", tags.len()), cdir: None };
+                for input in ["auto", "semver"] { judge(&ctx, &sr, input, &mut s_h); }
+            }
+        }
+        repo.remove();
+    }
+    layer_secs.push(("H", ctx.start.elapsed().as_secs_f64()));
     let _ = std::fs::remove_dir_all(&root);
 
     layer_secs.push(("G+process", ctx.start.elapsed().as_secs_f64()));
-    let all = s_main.merge(s_c).merge(s_g).merge(s_d).merge(s_e).merge(s_f).merge(s_p.clone());
+    let all = s_main.merge(s_c).merge(s_g).merge(s_h).merge(s_d).merge(s_e).merge(s_f).merge(s_p.clone());
     let was_capped = capped.load(std::sync::atomic::Ordering::Relaxed);
     let mut cov = Coverage::default();
     cov.states = all.get("states");
@@ -440,7 +478,7 @@ fn main() {
     cov.evaluations = all.get("evaluations") + all.get("render_evaluations");
     cov.traces_validated = all.get("states");
     cov.distinct_nontrivial = all.get("tagged_evaluations");
-    cov.rule = format!("layer A: BFS over commit / branch&checkout / checkout / merge(ff or true merge) from a one-commit repository, commits <= {nc}, extra branches <= {nb}: {} distinct shapes ({} used{}), {} explorer transitions; layer B: every placement of <= {tmax} tags from {:?} on any commits x HEAD at every branch tip and detached at every commit x date modes (increasing; zig-zag and all-equal for merge shapes, thorough also decreasing); layer C: every subset of <= {max_subset} of 8 names {:?} on one commit x 2 HEAD positions x 3 input formats, the chunks of subsets alternately (thorough: both) in SHA-1 and SHA-256 repositories (64-digit object names); layer D: 27 work-tree states (incl. untracked files covered only by the user-level core.excludesFile or by .git/info/exclude) x {} baseline repositories; layer E: 11 branch names (with '/', '.', non-ASCII, equal to a version tag / a non-version tag / a ref-namespace word) x a tag of the same short name (absent, lightweight or annotated, on the middle commit or the tip) x HEAD on that branch / the other branch / detached x 3 input formats; layer F: checkouts whose .git is a file (linked worktree beside and nested inside the main work tree, separate git directory) clean and with an untracked file; layer G: a linear history of 100001 (thorough 300001) commits with the nearest valid tag 9999 .. 100000 commits behind HEAD. Every state is materialised in real git by fast-import, conformance-checked with `git log --all` / `for-each-ref` / `symbolic-ref` / `status --porcelain=v2`, and judged against R-GIT (nearest validly tagged commit, highest tag under R-SV / C11 order (auto mode: highest under either format that accepts it), distance = |reach(HEAD) minus reach(tag)|, dirty, branch, hashes, times). non-trivial = evaluations that have a valid reachable tag", all_shapes.len(), shapes.len(), if quick { ": all with <= 3 commits plus the 4-commit merge shapes" } else { "" }, shape_transitions, alpha.iter().map(|a| a.0).collect::<Vec<_>>(), names8.iter().map(|a| a.0).collect::<Vec<_>>(), baselines.len());
+    cov.rule = format!("layer A: BFS over commit / branch&checkout / checkout / merge(ff or true merge) from a one-commit repository, commits <= {nc}, extra branches <= {nb}: {} distinct shapes ({} used{}), {} explorer transitions; layer B: every placement of <= {tmax} tags from {:?} on any commits x HEAD at every branch tip and detached at every commit x date modes (increasing; zig-zag and all-equal for merge shapes, thorough also decreasing); layer C: every subset of <= {max_subset} of 8 names {:?} on one commit x 2 HEAD positions x 3 input formats, the chunks of subsets alternately (thorough: both) in SHA-1 and SHA-256 repositories (64-digit object names); layer D: 27 work-tree states (incl. untracked files covered only by the user-level core.excludesFile or by .git/info/exclude) x {} baseline repositories; layer E: 11 branch names (with '/', '.', non-ASCII, equal to a version tag / a non-version tag / a ref-namespace word) x a tag of the same short name (absent, lightweight or annotated, on the middle commit or the tip) x HEAD on that branch / the other branch / detached x 3 input formats; layer F: checkouts whose .git is a file (linked worktree beside and nested inside the main work tree, separate git directory) clean and with an untracked file; layer G: a linear history of 100001 (thorough 300001) commits with the nearest valid tag 9999 .. 100000 commits behind HEAD; layer H: crowded repositories - 12 .. 130 (thorough 1 .. 600) version tags (numeric third numbers, pre-release and v-less spellings, every seventh annotated) plus non-version names on each of five commits of a 37-commit history, as many higher-versioned tags on an unreachable side branch, HEAD at seven positions x 2 input formats. Every state is materialised in real git by fast-import, conformance-checked with `git log --all` / `for-each-ref` / `symbolic-ref` / `status --porcelain=v2`, and judged against R-GIT (nearest validly tagged commit, highest tag under R-SV / C11 order (auto mode: highest under either format that accepts it), distance = |reach(HEAD) minus reach(tag)|, dirty, branch, hashes, times). non-trivial = evaluations that have a valid reachable tag", all_shapes.len(), shapes.len(), if quick { ": all with <= 3 commits plus the 4-commit merge shapes" } else { "" }, shape_transitions, alpha.iter().map(|a| a.0).collect::<Vec<_>>(), names8.iter().map(|a| a.0).collect::<Vec<_>>(), baselines.len());
     cov.set("cumulative_seconds_after_layer", json!(layer_secs.iter().map(|(n, t)| json!({"layer": n, "t": (t * 10.0).round() / 10.0})).collect::<Vec<_>>()));
     cov.exhaustive = !was_capped;
     cov.samples = vec![json!({"ops":["branch b1","commit","checkout main","commit","merge b1"],"dates":"decreasing","tags":["v2.0.0@1","v1.0.0@0"],"head":"main"}), json!({"one_commit_tags":["v1.0.0","1.1.0rc1","1.1.0.post1"],"input_format":"auto"}), json!({"worktree":"IgnoredOnly","head":"detached"})];
